@@ -5,6 +5,7 @@ import LZ4V.Model.FrameC
 import LZ4V.Model.FrameD
 import LZ4V.Spec.FrameLExec
 import LZ4V.Model.FrameFast
+import LZ4V.Model.FrameLinked
 /-!
 # Judge for frame records
 
@@ -85,6 +86,60 @@ def judgeFrameModel (r : Rec) : List (String × String) × List String := Id.run
       return ([("model_frame_bytes_differs", s!"model frame {f.length} bytes, real frame {frame.size} bytes, first difference at {d} (bsid={p.bsid} level={p.level} bcrc={p.blockChecksum} ccrc={p.contentChecksum} csize={p.contentSize} dictID={p.dictID} autoFlush={p.autoFlush})")], [])
     return ([], ["framemodel.same"])
 
+/-- record kind 6 (fresh context, fast level, LINKED blocks, no dictionary, compressed updates only): the schedule logged by the interposed
+    `LZ4_compress_fast_continue` / `LZ4_saveDict` calls is replayed by `Model/FrameLinked.lean`; the frame bytes must be the model's, the blocks of the
+    schedule must spell out the input, every logged return value must be the stream model's -/
+def judgeFrameLinked (r : Rec) : List (String × String) × List String := Id.run do
+  if r.args.size < 15 then return ([], [])
+  let input := r.bytes 12
+  let frame := r.bytes 13
+  let life := r.bytes 14
+  if frame.size == 0 then return ([], ["framelinked.skipped"])
+  let bsidReq := r.nat 1
+  let p : LZ4V.Model.FrameFast.Prefs := LZ4V.Model.FrameFast.Prefs.mk (if bsidReq == 0 then 4 else bsidReq) (r.nat 4 == 1) (r.nat 3 == 1) (rdLE (r.bytes 5) 0 8) (r.nat 6) (r.int 7) (r.nat 8 != 0)
+  let mut ops : List LZ4V.Model.FrameLinked.LOp := []
+  let mut pc := 0
+  let mut bad := false
+  let mut nsave := 0
+  let mut nfail := 0
+  let mut S : LZ4V.Model.FastX.XState := {}
+  let mut fails : List (String × String) := []
+  let mut nblk := 0
+  while pc < life.size && !bad do
+    let kind := life.get! pc
+    let addr := rdLE life (pc + 1) 8
+    if kind == 0 then
+      let n := rdLE life (pc + 9) 4
+      let cap := rdLE life (pc + 13) 4
+      let acc := rdLE life (pc + 17) 4
+      let data := life.extract (pc + 21) (pc + 21 + n)
+      let ret := rdLE life (pc + 21 + n) 4
+      pc := pc + 25 + n
+      if cap + 1 != n || Int.ofNat acc != LZ4V.Model.FrameLinked.accelOf p then bad := true
+      let res := LZ4V.Model.FastX.compress (fun s b => LZ4V.Model.Fast.realHash s b) S addr data.data (LZ4V.Model.FrameLinked.accelOf p) (n - 1)
+      let mret := match res.2 with | some b => b.length | none => 0
+      if fails.isEmpty && mret != ret then fails := [("model_frame_bytes_differs", s!"linked frame, block {nblk} (n={n} at {addr}): LZ4_compress_fast_continue returned {ret}, the stream model {mret}")]
+      if ret == 0 then nfail := nfail + 1
+      S := res.1
+      nblk := nblk + 1
+      ops := .block addr data.data :: ops
+    else
+      let k := rdLE life (pc + 9) 4
+      pc := pc + 17
+      S := (LZ4V.Model.FastX.saveDict S addr k).1
+      nsave := nsave + 1
+      ops := .save addr k :: ops
+  if bad then return ([("model_frame_bytes_differs", "linked frame: a logged compression call does not have capacity n-1 / the acceleration of the level")], [])
+  let sched := ops.reverse
+  if LZ4V.Model.FrameLinked.contentOf sched != input.toList then
+    return ([("model_frame_bytes_differs", s!"linked frame: the blocks handed to the LZ4 stream do not spell out the input ({(LZ4V.Model.FrameLinked.contentOf sched).length} vs {input.size} bytes)")], [])
+  let f := LZ4V.Model.FrameLinked.frame LZ4V.Spec.FrameL.xxhEnv (fun s b => LZ4V.Model.Fast.realHash s b) p sched
+  if fails.isEmpty && f != frame.toList then
+    let d := (List.range (min f.length frame.size)).find? (fun i => f.getD i 0 != frame.get! i)
+    fails := [("model_frame_bytes_differs", s!"linked frame: model {f.length} bytes, real {frame.size} bytes, first difference at {d} (bsid={p.bsid} level={p.level} bcrc={p.blockChecksum} ccrc={p.contentChecksum} csize={p.contentSize} autoFlush={p.autoFlush} blocks={nblk} saves={nsave})")]
+  return (fails, ["framelinked.same", if nsave > 0 then "framelinked.saveDict" else "framelinked.nosave", if nfail > 0 then "framelinked.raw_blocks" else "framelinked.noraw",
+                  if nblk ≥ 2 then "framelinked.blocks.many" else "framelinked.blocks.le1"])
+
 def judgeFrame (blobs : Std.HashMap Nat ByteArray) (r : Rec) : Verdict := Id.run do
   let kind := r.nat 0
   let bsidReq := r.nat 1
@@ -122,9 +177,9 @@ def judgeFrame (blobs : Std.HashMap Nat ByteArray) (r : Rec) : Verdict := Id.run
     let h := f.hdr
     -- header fields requested by the preferences
     let bsidDefault := if bsidReq == 0 then 4 else bsidReq
-    let wantBsid := if kind == 0 || kind == 5 then bsidDefault else (LZ4V.Gen.LZ4F_optimalBSID bsidDefault input.size).toNat
+    let wantBsid := if kind == 0 || kind == 5 || kind == 6 then bsidDefault else (LZ4V.Gen.LZ4F_optimalBSID bsidDefault input.size).toNat
     if h.bsid != wantBsid then v := { v with fails := ("header_block_size_id", s!"got {h.bsid} want {wantBsid}") :: v.fails }
-    let wantIndep := if kind == 0 || kind == 5 then blockMode == 1 else (blockMode == 1 || input.size ≤ blockSizeOf wantBsid)
+    let wantIndep := if kind == 0 || kind == 5 || kind == 6 then blockMode == 1 else (blockMode == 1 || input.size ≤ blockSizeOf wantBsid)
     if h.blockIndep != wantIndep then v := { v with fails := ("header_block_mode", s!"got indep={h.blockIndep} want {wantIndep}") :: v.fails }
     if h.contentChecksum != (ccFlag == 1) then v := { v with fails := ("header_content_checksum_flag", "") :: v.fails }
     if h.blockChecksum != (bcFlag == 1) then v := { v with fails := ("header_block_checksum_flag", "") :: v.fails }
@@ -146,6 +201,9 @@ def judgeFrame (blobs : Std.HashMap Nat ByteArray) (r : Rec) : Verdict := Id.run
                             if dictSize == 0 then "nodict" else "dict"] }
     if kind == 5 then
       let m := judgeFrameModel r
+      v := { v with fails := m.1 ++ v.fails, tags := m.2 ++ v.tags }
+    if kind == 6 then
+      let m := judgeFrameLinked r
       v := { v with fails := m.1 ++ v.fails, tags := m.2 ++ v.tags }
   return v
 
